@@ -41,6 +41,14 @@ func c11Vals() []c11Val {
 		{"json-two-values", func() *rt.Node { return S(`[1] [2]`) }, `[1] [2]`, true, true},
 		{"json-number-junk", func() *rt.Node { return S(`12abc`) }, `12abc`, true, true},
 		{"empty", func() *rt.Node { return S("") }, "", true, true},
+		{"plus-no-percent", func() *rt.Node { return S("q=hello+world") }, "q=hello+world", true, true},
+		{"trailing-percent", func() *rt.Node { return S("100%") }, "100%", true, true},
+		{"percent-utf8", func() *rt.Node { return S("%E6%97%A5+%e6%9c%ac") }, "%E6%97%A5+%e6%9c%ac", true, true},
+		{"non-ascii", func() *rt.Node { return S("héllo wörld ǆ") }, "héllo wörld ǆ", true, true},
+		{"tabs-newlines", func() *rt.Node { return S("\t x\ty \n") }, "\t x\ty \n", true, true},
+		{"regex-special", func() *rt.Node { return S("a.b(c)$1aa") }, "a.b(c)$1aa", true, true},
+		{"floatstr", func() *rt.Node { return S("-3.5") }, "-3.5", true, true},
+		{"boolstr", func() *rt.Node { return S("true") }, "true", true, true},
 		{"list", func() *rt.Node { return rt.List(I(1), S("a")) }, nil, false, false},
 		{"map", func() *rt.Node { return rt.Map(S("a"), I(1)) }, nil, false, false},
 		{"nil", func() *rt.Node { return rt.Nil() }, nil, true, false},
@@ -274,7 +282,7 @@ func init() {
 		Level: "model_checking",
 		Rule: "45 call templates of the 15 builtins (every optional argument present/absent, identifier/attribute/string/expression arguments, all cast types, good and bad regular expressions, format strings with matching and mismatching verbs) " +
 			"x 6 key spellings (identifier, back-quoted, string literal, `_`, attribute expression, attribute expression with an index) x 6 subject situations (variable only, field only, tag only, variable shadowing a field, variable shadowing a tag, absent) " +
-			"x 16 subject values (int, float, bool, plain/padded/url-encoded/undecodable/JSON/JSON with trailing text/numeric/empty strings, list, map, nil) x 3 base points; " +
+			"x 24 subject values (int, float, bool, plain/padded/url-encoded/'+' without '%'/trailing '%'/percent-encoded UTF-8/undecodable/JSON/JSON with trailing text/numeric/float/bool/non-ASCII/tab+newline/regex-special/empty strings, list, map, nil) x 3 base points; " +
 			"oracle: the whole canonical final point (so every other key is checked untouched), captured standard output, probe trace of return values and of three read-backs, error flag — all equal to the reference builtins",
 		Assumptions: []string{"strings, regexp, net/url, fmt, encoding/json and spf13/cast are the trusted base the reference shares with the code", "unspecified cells: cast of collections / non-numeric strings, cast to \"string\", rename onto an existing key, set_tag from a construct without value"},
 		Run:            c11Run,
